@@ -1,0 +1,61 @@
+package apifu
+
+import (
+	"io/ioutil"
+	"net/http"
+	"testing"
+
+	"github.com/stretchr/testify/assert"
+	"github.com/stretchr/testify/require"
+
+	"github.com/ccbrown/api-fu/graphql"
+)
+
+// An edge getter whose promise resolves to another promise used to make completeConnection call
+// chain from inside a goroutine (racing with the idle handler on the request's bookkeeping) and
+// then crash the edges resolver with a failed type assertion. It must be an ordinary field error.
+func TestConnection_PromiseResolvingToPromise(t *testing.T) {
+	type edgeNode struct{ Id int }
+	var testCfg Config
+	nodeType := &graphql.ObjectType{
+		Name: "NestedPromiseNode",
+		Fields: map[string]*graphql.FieldDefinition{
+			"id": {
+				Type: graphql.IntType,
+				Resolve: func(ctx graphql.FieldContext) (interface{}, error) {
+					return ctx.Object.(edgeNode).Id, nil
+				},
+			},
+		},
+	}
+	testCfg.AddQueryField("conn", Connection(&ConnectionConfig{
+		NamePrefix: "NestedPromise",
+		EdgeCursor: func(edge interface{}) interface{} { return edge.(edgeNode).Id },
+		EdgeFields: map[string]*graphql.FieldDefinition{
+			"node": {
+				Type: nodeType,
+				Resolve: func(ctx graphql.FieldContext) (interface{}, error) {
+					return ctx.Object, nil
+				},
+			},
+		},
+		ResolveAllEdges: func(ctx graphql.FieldContext) (interface{}, func(a, b interface{}) bool, error) {
+			c := ctx.Context
+			return Go(c, func() (interface{}, error) {
+				return Go(c, func() (interface{}, error) {
+					return []edgeNode{{1}, {2}}, nil
+				}), nil
+			}), func(a, b interface{}) bool { return a.(int) < b.(int) }, nil
+		},
+	}))
+
+	api, err := NewAPI(&testCfg)
+	require.NoError(t, err)
+
+	resp := executeGraphQL(t, api, `{conn(first: 5) {edges {node {id}}}}`)
+	require.Equal(t, http.StatusOK, resp.StatusCode)
+	body, err := ioutil.ReadAll(resp.Body)
+	require.NoError(t, err)
+	assert.Contains(t, string(body), `"conn":null`)
+	assert.Contains(t, string(body), `unexpected promise`)
+}
